@@ -11,6 +11,7 @@ package main
 import (
 	"bufio"
 	"bytes"
+	"context"
 	"fmt"
 	"os"
 	"os/exec"
@@ -18,6 +19,10 @@ import (
 	"strings"
 	"sync"
 	"time"
+
+	"ariga.io/atlas/sql/migrate"
+	"ariga.io/atlas/sql/schema"
+	"ariga.io/atlas/sql/verifx"
 
 	"verifharness/internal/out"
 )
@@ -130,6 +135,112 @@ func repeatMain(w *out.W, tier string) {
 			}
 		}
 	}
+	// (a2) the same input VALUE, used again: an operation must not consume or rewrite its argument.
+	// The same []schema.Change is planned three times (`schema apply` plans once to show the plan and again in
+	// ApplyChanges), the same *migrate.Plan is formatted twice.
+	for _, d := range dialects {
+		for _, sc := range []string{"create", "modify", "drop"} {
+			for v := 0; v < nVariants; v++ {
+				id := fmt.Sprintf("same-value-plan-%s-%s/%d", d.name, sc, v)
+				changes, err := mkChanges(d, v, sc)
+				if err != nil {
+					continue
+				}
+				sameValuePlan(w, id, fmt.Sprintf("%s %s variant %d", d.name, sc, v), d, changes)
+			}
+		}
+		// the same with schema-level changes in the list (what a realm diff / a hand-made list holds): two
+		// schemas with the same tables, the schema-level changes in front or between the table changes
+		if d.name == "sqlite" {
+			continue // one schema per connection
+		}
+		for _, sc := range realmScenarios {
+			for v := 0; v < nVariants; v++ {
+				id := fmt.Sprintf("same-value-plan-%s-%s/%d", d.name, sc, v)
+				changes, err := mkRealmChanges(d, v, sc)
+				if err != nil {
+					w.Violation(id, "same-value-setup", fmt.Sprintf("%s %s variant %d: %v", d.name, sc, v, err))
+					continue
+				}
+				sameValuePlan(w, id, fmt.Sprintf("%s %s variant %d", d.name, sc, v), d, changes)
+			}
+		}
+	}
+	for _, f := range formatters {
+		for v := 0; v < nVariants; v++ {
+			id := fmt.Sprintf("same-value-format-%s/%d", f.name, v)
+			p, err := mkPlan(dialects[1+v%2], v, []string{"create", "modify", "drop"}[v%3])
+			if err != nil {
+				continue
+			}
+			fs1, e1 := f.f.Format(p)
+			fs2, e2 := f.f.Format(p)
+			w.ImplOnly(id, "the same plan value formatted twice")
+			w.Count("same-value")
+			if e1 != nil || e2 != nil {
+				continue
+			}
+			if a, b := filesBytes(fs1), filesBytes(fs2); !bytes.Equal(a, b) {
+				w.Violation(id, "same-value-different-files", fmt.Sprintf("%s formatter, variant %d: formatting the same plan value again gives different files: %s", f.name, v, firstDiff(a, b)))
+			}
+		}
+	}
+	// (a3) history independence of the directory checksum: a MemDir that was listed and hashed, then had files
+	// overwritten and one added, hashes like a new MemDir holding the same final content
+	for v := 0; v < nVariants; v++ {
+		id := fmt.Sprintf("hash-after-rewrite/%d", v)
+		files := dirFiles(v)
+		d := &migrate.MemDir{}
+		for _, f := range files {
+			d.WriteFile(f[0], []byte(f[1]))
+		}
+		d.Files()
+		d.Checksum()
+		final := map[string]string{}
+		for _, f := range files {
+			final[f[0]] = f[1]
+		}
+		k := 0
+		for _, f := range files {
+			if strings.HasSuffix(f[0], ".sql") && k < 2 {
+				final[f[0]] = f[1] + "-- edited\nALTER TABLE x ADD COLUMN y int;\n"
+				d.WriteFile(f[0], []byte(final[f[0]]))
+				d.Checksum()
+				k++
+			}
+		}
+		if v%2 == 1 { // also with a file added after the overwrites
+			final["2099_zz.sql"] = "CREATE TABLE zz (id int);\n"
+			d.WriteFile("2099_zz.sql", []byte(final["2099_zz.sql"]))
+		}
+		h1, err1 := d.Checksum()
+		fresh := &migrate.MemDir{}
+		for n, b := range final {
+			fresh.WriteFile(n, []byte(b))
+		}
+		h2, err2 := fresh.Checksum()
+		w.ImplOnly(id, "MemDir hashed, two files overwritten, one added, hashed again vs a new MemDir with the same content")
+		w.Count("hash-history")
+		if err1 != nil || err2 != nil {
+			w.Violation(id, "hash-history-error", fmt.Sprintf("variant %d: %v / %v", v, err1, err2))
+			continue
+		}
+		b1, _ := h1.MarshalText()
+		b2, _ := h2.MarshalText()
+		if !bytes.Equal(b1, b2) {
+			w.Violation(id, "hash-depends-on-history", fmt.Sprintf("variant %d: the checksum of a MemDir after overwriting files differs from the checksum of a new MemDir with the same files: %s", v, firstDiff(b1, b2)))
+		}
+	}
+	// (a4) the same for a LocalDir: files written, hashed (sum file written), then a file rewritten with SHORTER
+	// content, one deleted, the sum written again -> files, sum file and Validate as for a new directory
+	for v := 0; v < nVariants; v++ {
+		id := fmt.Sprintf("localdir-after-rewrite/%d", v)
+		w.ImplOnly(id, "LocalDir written, hashed, files rewritten shorter / removed, hashed again vs a new LocalDir with the same content")
+		w.Count("hash-history")
+		if msg := localDirHistory(v); msg != "" {
+			w.Violation(id, "hash-depends-on-history", fmt.Sprintf("variant %d: %s", v, msg))
+		}
+	}
 	// (b) fresh processes
 	self, _ := os.Executable()
 	for p := 0; p < procs; p++ {
@@ -163,6 +274,203 @@ func repeatMain(w *out.W, tier string) {
 	concurrent(w, base, 4, "conc")
 	// (d) the same under the race detector
 	raceRun(w, tier)
+}
+
+var realmScenarios = []string{"realm-create", "realm-create-interleaved", "realm-modify", "realm-drop"}
+
+// mkRealmChanges: change lists over two schemas that hold the same tables (same names), with
+// schema-level changes. realm-create: AddSchema x2, then the tables of both; realm-create-interleaved:
+// AddSchema, its tables, AddSchema, its tables; realm-modify: ModifySchema of the first and AddSchema of
+// the second schema, then the modifications of the first and the tables of the second; realm-drop:
+// DropSchema of the second schema, then the drops of the tables of the first.
+func mkRealmChanges(d *dialect, v int, scenario string) ([]schema.Change, error) {
+	to1 := mkSchema(d, v, nil)
+	to2 := mkSchema(d, v, nil)
+	to2.Name = d.schema + "2"
+	diff := func(from, to *schema.Schema) ([]schema.Change, error) {
+		cs, err := d.differ.SchemaDiff(from, to)
+		if err != nil {
+			return nil, fmt.Errorf("diff: %w", err)
+		}
+		return cs, nil
+	}
+	attr := func() schema.Change {
+		if d.name == "mysql" {
+			return &schema.ModifyAttr{From: &schema.Charset{V: "latin1"}, To: &schema.Charset{V: "utf8mb4"}}
+		}
+		return &schema.ModifyAttr{From: &schema.Comment{Text: "old"}, To: &schema.Comment{Text: "new"}}
+	}
+	var out []schema.Change
+	switch scenario {
+	case "realm-create", "realm-create-interleaved":
+		c1, err := diff(schema.New(to1.Name), to1)
+		if err != nil {
+			return nil, err
+		}
+		c2, err := diff(schema.New(to2.Name), to2)
+		if err != nil {
+			return nil, err
+		}
+		if scenario == "realm-create" {
+			out = append(out, &schema.AddSchema{S: to1}, &schema.AddSchema{S: to2})
+			out = append(append(out, c1...), c2...)
+		} else {
+			out = append(append(out, &schema.AddSchema{S: to1}), c1...)
+			out = append(append(out, &schema.AddSchema{S: to2}), c2...)
+		}
+	case "realm-modify":
+		c1, err := diff(fromSchema(d, v), to1)
+		if err != nil {
+			return nil, err
+		}
+		c2, err := diff(schema.New(to2.Name), to2)
+		if err != nil {
+			return nil, err
+		}
+		out = append(out, &schema.ModifySchema{S: to1, Changes: []schema.Change{attr()}}, &schema.AddSchema{S: to2})
+		out = append(append(out, c1...), c2...)
+	case "realm-drop":
+		c1, err := diff(to1, schema.New(to1.Name))
+		if err != nil {
+			return nil, err
+		}
+		out = append(append(out, &schema.DropSchema{S: to2}), c1...)
+	}
+	return out, nil
+}
+
+// valueIdentity: the identity of a change list a planner must leave alone: the elements of the slice
+// and, for every ModifyTable / ModifySchema, the elements of its Changes; for every table its
+// foreign keys.
+func valueIdentity(cs []schema.Change) string {
+	var b strings.Builder
+	tab := func(t *schema.Table) {
+		fmt.Fprintf(&b, "%p:%s[", t, t.Name)
+		for _, f := range t.ForeignKeys {
+			fmt.Fprintf(&b, "%p,", f)
+		}
+		b.WriteString("]")
+	}
+	for _, c := range cs {
+		fmt.Fprintf(&b, "%T@%p", c, c)
+		switch c := c.(type) {
+		case *schema.AddTable:
+			tab(c.T)
+		case *schema.DropTable:
+			tab(c.T)
+		case *schema.ModifyTable:
+			tab(c.T)
+			for _, x := range c.Changes {
+				fmt.Fprintf(&b, " %T@%p", x, x)
+			}
+		case *schema.ModifySchema:
+			for _, x := range c.Changes {
+				fmt.Fprintf(&b, " %T@%p", x, x)
+			}
+		}
+		b.WriteString(";")
+	}
+	return b.String()
+}
+
+func changeKinds(cs []schema.Change) string {
+	var ss []string
+	for _, c := range cs {
+		s := strings.TrimPrefix(fmt.Sprintf("%T", c), "*schema.")
+		switch c := c.(type) {
+		case *schema.AddTable:
+			s += ":" + c.T.Name
+		case *schema.DropTable:
+			s += ":" + c.T.Name
+		case *schema.ModifyTable:
+			s += fmt.Sprintf(":%s/%d", c.T.Name, len(c.Changes))
+			if c.T.Schema != nil {
+				s += "@" + c.T.Schema.Name
+			}
+		}
+		ss = append(ss, s)
+	}
+	return strings.Join(ss, " ")
+}
+
+// sameValuePlan: the same []schema.Change value is planned three times (`schema apply` plans once to
+// show the plan and again in ApplyChanges) and its table changes go through DetachCycles + SortChanges
+// twice: every plan must be the first one, and the value must be what it was.
+func sameValuePlan(w *out.W, id, what string, d *dialect, changes []schema.Change) {
+	ident := valueIdentity(changes)
+	var outs [3][]byte
+	for k := range outs {
+		func() {
+			defer func() {
+				if r := recover(); r != nil {
+					outs[k] = []byte("ERR panic")
+				}
+			}()
+			p, err := d.planner.PlanChanges(context.Background(), "det_plan", changes)
+			if err != nil {
+				outs[k] = []byte("ERR " + errClass(fmt.Errorf("plan: %w", err)))
+				return
+			}
+			outs[k] = planBytes(p)
+		}()
+	}
+	w.ImplOnly(id, "the same change-set value planned three times")
+	w.Count("same-value")
+	for k := 1; k < len(outs); k++ {
+		if !bytes.Equal(outs[0], outs[k]) {
+			w.Violation(id, "same-value-different-plan", fmt.Sprintf("%s: planning the same []schema.Change value again gives a different plan (call %d vs call 1): %s", what, k+1, firstDiff(outs[0], outs[k])))
+			break
+		}
+	}
+	if valueIdentity(changes) != ident {
+		w.Violation(id, "same-value-input-mutated", fmt.Sprintf("%s: PlanChanges changed the []schema.Change value it was given (its elements, the Changes of a ModifyTable / ModifySchema, or a table's foreign keys)", what))
+		ident = valueIdentity(changes)
+	}
+	if d.name == "sqlite" {
+		return // the SQLite planner does not use DetachCycles / SortChanges
+	}
+	// the sort itself, on what topLevel leaves: the table changes
+	var tables []schema.Change
+	for _, c := range changes {
+		switch c.(type) {
+		case *schema.AddSchema, *schema.DropSchema, *schema.ModifySchema:
+		default:
+			tables = append(tables, c)
+		}
+	}
+	tident := valueIdentity(tables)
+	var sorts [2]string
+	for k := range sorts {
+		func() {
+			defer func() {
+				if r := recover(); r != nil {
+					sorts[k] = "ERR panic"
+				}
+			}()
+			dc, err := verifx.DetachCycles(tables)
+			if err != nil {
+				sorts[k] = "ERR detach"
+				return
+			}
+			di := valueIdentity(dc)
+			s1 := changeKinds(verifx.SortChanges(dc, nil))
+			s2 := changeKinds(verifx.SortChanges(dc, nil))
+			if s1 != s2 {
+				w.Violation(id, "same-value-different-plan", fmt.Sprintf("%s: SortChanges of the same detached list gives %s, then %s", what, trunc(s1, 300), trunc(s2, 300)))
+			}
+			if valueIdentity(dc) != di {
+				w.Violation(id, "same-value-input-mutated", fmt.Sprintf("%s: SortChanges changed the slice it was given", what))
+			}
+			sorts[k] = s1
+		}()
+	}
+	w.Count("same-value-sort")
+	if sorts[0] != sorts[1] {
+		w.Violation(id, "same-value-different-plan", fmt.Sprintf("%s: DetachCycles+SortChanges of the same value gives %s, then %s", what, trunc(sorts[0], 300), trunc(sorts[1], 300)))
+	}
+	if valueIdentity(tables) != tident {
+		w.Violation(id, "same-value-input-mutated", fmt.Sprintf("%s: DetachCycles+SortChanges changed the []schema.Change value it was given", what))
+	}
 }
 
 // concurrent runs every operation in its own goroutine, `rounds` times, all at once, next to
@@ -305,4 +613,82 @@ func runTimeout(cmd *exec.Cmd, d time.Duration) ([]byte, error) {
 		cmd.Process.Kill()
 		return b.Bytes(), fmt.Errorf("timeout after %s", d)
 	}
+}
+
+// localDirHistory returns "" when a LocalDir that went through a write history equals a new one with the same files.
+func localDirHistory(v int) string {
+	mk := func() (*migrate.LocalDir, string, error) {
+		tmp, err := os.MkdirTemp("", "detldir")
+		if err != nil {
+			return nil, "", err
+		}
+		d, err := migrate.NewLocalDir(tmp)
+		return d, tmp, err
+	}
+	sum := func(d *migrate.LocalDir) error {
+		h, err := d.Checksum()
+		if err != nil {
+			return err
+		}
+		return migrate.WriteSumFile(d, h)
+	}
+	files := dirFiles(v)
+	d1, t1, err := mk()
+	if err != nil {
+		return err.Error()
+	}
+	defer os.RemoveAll(t1)
+	final := map[string]string{}
+	for _, f := range files {
+		if strings.HasSuffix(f[0], ".sql") {
+			d1.WriteFile(f[0], []byte(f[1]+"-- a long trailer that will be cut off again .........................................\n"))
+			final[f[0]] = f[1]
+		}
+	}
+	if err := sum(d1); err != nil {
+		return "first sum: " + err.Error()
+	}
+	k := 0
+	for _, f := range files {
+		if !strings.HasSuffix(f[0], ".sql") {
+			continue
+		}
+		if k%3 == 2 {
+			os.Remove(filepath.Join(t1, f[0]))
+			delete(final, f[0])
+		} else {
+			d1.WriteFile(f[0], []byte(final[f[0]])) // shorter than before
+		}
+		k++
+	}
+	if err := sum(d1); err != nil {
+		return "second sum: " + err.Error()
+	}
+	d2, t2, err := mk()
+	if err != nil {
+		return err.Error()
+	}
+	defer os.RemoveAll(t2)
+	for n, b := range final {
+		d2.WriteFile(n, []byte(b))
+	}
+	if err := sum(d2); err != nil {
+		return "fresh sum: " + err.Error()
+	}
+	if err := migrate.Validate(d1); err != nil {
+		return "the rewritten directory does not validate right after its sum was written: " + err.Error()
+	}
+	for n := range final {
+		b1, _ := os.ReadFile(filepath.Join(t1, n))
+		b2, _ := os.ReadFile(filepath.Join(t2, n))
+		if !bytes.Equal(b1, b2) {
+			return fmt.Sprintf("file %s differs from a newly written one: %s", n, firstDiff(b2, b1))
+		}
+	}
+	s1, _ := os.ReadFile(filepath.Join(t1, migrate.HashFileName))
+	s2, _ := os.ReadFile(filepath.Join(t2, migrate.HashFileName))
+	if !bytes.Equal(s1, s2) {
+		return "atlas.sum differs from the one of a new directory with the same files: " + firstDiff(s2, s1)
+	}
+	return ""
 }
